@@ -27,7 +27,8 @@ def sim_monotonic() -> float:
     sim = CURRENT
     if sim is None:
         return 0.0
-    return sim.loop._now
+    # the library's clock need not share its epoch with the loop's clock: a per-run offset (swarm knob, default 0)
+    return sim.loop._now + getattr(sim, "mono_epoch", 0.0)
 
 
 def sim_sleep(seconds) -> None:
